@@ -64,6 +64,18 @@ class SeqPart(Part):
     def run(self, prog):
         hooks = self.hooks(prog) if callable(self.hooks) else self.hooks
         res = engines.run_seq(prog, probes=self.probes, hooks=hooks, **self.kw)
+        if res.violations and self.prof == "C18" and not any("C18" in v.props for v in res.violations):
+            # C18 is differential too: a disagreement that disappears when the same history runs with
+            # plain, unrelated identifiers is caused by the identifier strings themselves
+            import copy
+            p2 = copy.deepcopy(prog)
+            p2["pids"] = ["plainid%d" % i for i in range(len(prog["pids"]))]
+            p2["formats"] = [prog["formats"][0]] + ["plainfmt%d" % i for i in range(1, len(prog["formats"]))]
+            r2 = engines.run_seq(p2, probes=self.probes, hooks=hooks, **self.kw)
+            if not r2.violations and not r2.harness_error:
+                for v in res.violations:
+                    v.props.add("C18")
+                    v.detail = dict(v.detail, identifier_dependent=True, pids=prog["pids"], formats=prog["formats"])
         if res.violations and prog.get("knobs", {}).get("mp"):
             # C16 is differential: a disagreement seen only in multiprocessing mode belongs to
             # C16 alone; one that the threading mode shows too belongs to the other properties.
